@@ -138,3 +138,29 @@ Definition no_drop_op (o : op) : bool := match o with ODropSpan _ => false | _ =
 Definition expected_event (c : coll) (a : arg) : list entry :=
   let (asked, ok) := until_veto (q_ans QEvent a) (coll_ask c) in
   ents event_enabled a asked ++ (if ok then (root_id c, event, a) :: ents on_event a (coll_recv false on_event c) else []).
+
+(** The whole exactly-once / order / veto clause at the level the harness observes: the callback log of one dispatcher-level
+    operation on a stack ([None]: no claim — `max_level_hint`, and `register_callsite` on a non-linear stack). *)
+Definition spec_op (c : coll) (o : op) : option (list entry) :=
+  let r := root_id c in
+  match o with
+  | ORegisterCallsite cs => if linear c then Some (fst (rc_until cs (coll_ask c))) else None
+  | OEnabled cs => Some (ents enabled (cs, 0, 0) (fst (until_veto (q_ans QEnabled (cs, 0, 0)) (coll_ask c))))
+  | OHint => None
+  | ONewSpan cs k => Some ((r, new_span, (cs, k, 0)) :: ents on_new_span (cs, k, 0) (coll_recv false on_new_span c))
+  | ORecord id => Some ((r, record, (0, id, 0)) :: ents on_record (0, id, 0) (coll_recv false on_record c))
+  | OFollows id id2 => Some ((r, record_follows_from, (0, id, id2)) :: ents on_follows_from (0, id, id2) (coll_recv false on_follows_from c))
+  | OEvent cs => Some (expected_event c (cs, 0, 0))
+  | OEnter id => Some ((r, enter, (0, id, 0)) :: ents on_enter (0, id, 0) (coll_recv false on_enter c))
+  | OExit id => Some ((r, exit, (0, id, 0)) :: ents on_exit (0, id, 0) (coll_recv false on_exit c))
+  | OClone id =>
+      let nw := b_clone (root_beh c) id in
+      Some ((r, clone_span, (0, id, 0)) :: (if nw =? id then [] else ents on_id_change (0, id, nw) (coll_recv false on_id_change c)))
+  | OTryClose id =>
+      Some ((r, try_close, (0, id, 0)) :: (if b_close (root_beh c) id then ents on_close (0, id, 0) (coll_recv false on_close c) else []))
+  | ODropSpan id =>
+      if coll_has_layer c
+      then Some ((r, try_close, (0, id, 0)) :: (if b_close (root_beh c) id then ents on_close (0, id, 0) (coll_recv false on_close c) else []))
+      else Some [(r, drop_span, (0, id, 0))]
+  | OCurrent => Some [(r, current_span, arg0)]
+  end.
